@@ -4,8 +4,7 @@ NAME=$1; shift
 P=/verif/seeded/$NAME/patch.diff
 cd /repo || exit 9
 if ! git diff --quiet; then echo "/repo not clean"; exit 9; fi
-git apply --3way $P 2>/dev/null || git apply $P || { echo "PATCH DOES NOT APPLY: $NAME"; git checkout -q -- .; exit 8; }
-git reset -q 2>/dev/null
+git apply $P || { echo "PATCH DOES NOT APPLY: $NAME"; git checkout -q -- .; exit 8; }
 cd /verif
 "$@"; RC=$?
 git -C /repo checkout -q -- .
